@@ -10,7 +10,7 @@
     [e :: rest] comes back to [rest] with [e] resolved.  In the middle of the loop some keys are PENDING
     (their chain ends in a key without an entry); the induction carries the fact that pending keys need
     more fuel than [n], hence are never met while [e] is processed. *)
-From Coq Require Import Lia List Bool Arith.
+From Coq Require Import Lia List Bool Arith String.
 From Patronus Require Import Simplify SimplifyFix ExprEqb SimplifyCache SimplifyCacheProofs.
 Import ListNotations.
 Open Scope N_scope.
@@ -786,6 +786,32 @@ Proof.
   exists F. intros fuel Hf. destruct (HF fuel Hf) as (c' & H & _). exists c'. split; [exact H|].
   eapply reachable_call; eassumption.
 Qed.
+
+(** ** examples: the hypotheses are satisfiable and the statements describe actual runs *)
+Module CompleteExamples.
+  Local Open Scope string_scope.
+  Definition a := BVSymbol "a" 8.
+  Definition nna := BVNot (BVNot a 8) 8.
+  (** both children are the same missing node: it is pushed (and processed) twice, the second time
+      with an entry already present - the case where the loop overwrites an entry *)
+  Definition twice := BVAnd nna nna 8.
+  Definition imp := BVImplies (BVEqual a a) (BVEqual nna a).
+
+  Example nf_twice : NF twice a.
+  Proof. exists 10%nat. vm_compute. reflexivity. Qed.
+
+  Example run_twice :
+    snd (simplify_cached 20 [] twice) = SOk a /\
+    snd (simplify_batch 30 [] [twice; nna; imp; twice]) = [SOk a; SOk a; SOk (BVLiteral 1 1); SOk a].
+  Proof. vm_compute. split; reflexivity. Qed.
+
+  (** the cache after the first call satisfies the invariant (by the theorem, not by computation) *)
+  Example good_after : cache_good (fst (simplify_cached 20 [] twice)).
+  Proof.
+    eapply (simplify_cached_good 20 [] twice _ a cache_good_nil).
+    vm_compute. reflexivity.
+  Qed.
+End CompleteExamples.
 
 Print Assumptions big_step.
 Print Assumptions simplify_cached_complete.
